@@ -330,7 +330,9 @@ int main() {
           if (std::fabs((double)(df - psum * dir[a])) > 1.e-9 * extmax)
             bad << " final-position-off-the-ray(axis=" << a << ")";
         }
-        if (std::fabs((double)(std::sqrt(dist2) - psum * dnorm)) > 1.e-9 * extmax)
+        // (a path sum that is negative within the round-off tolerance is judged by its size:
+        // the negative-path check above has already accepted or flagged its sign)
+        if (std::fabs((double)(std::sqrt(dist2) - std::fabs((double)psum) * dnorm)) > 1.e-9 * extmax)
           bad << " path-sum-differs-from-distance";
       }
       // (b) optical depth bookkeeping, (c) stop-inside iff the target is reached on the line
